@@ -127,6 +127,7 @@ func c06Run(c C06Case) c06Result {
 	seed, peers := c06Seed(c)
 	h := New(seed, peers)
 	w := h.W
+	w.Net.RPCTimeout = 3 * time.Hour // requests of the server itself stay pending until the harness answers them
 	stable := 0
 	w.FaultPlan = func(op *sim.DiskOp) sim.Decision {
 		if op.Kind != sim.OpSet && op.Kind != sim.OpSetUint64 {
@@ -244,6 +245,9 @@ func c06Run(c C06Case) c06Result {
 			for round := 0; round < 6; round++ {
 				synctest.Wait()
 				out := w.Net.TakeScripted()
+				if os.Getenv("C06DBG") != "" {
+					fmt.Printf("DBG round %d out=%d state=%v term=%d now=%v\n", round, len(out), h.In.R.State(), h.In.R.CurrentTerm(), w.Now())
+				}
 				if len(out) == 0 {
 					break
 				}
@@ -594,6 +598,7 @@ func TestC06Replay(t *testing.T) {
 	}
 	var res c06Result
 	sim.Bubble(t, func() { res = c06Run(f.Case) })
+	fmt.Printf("REPLAY-INFO grants=%d own-vote-requests=%d stable-writes=%d vote-record-reads=%d fault-hit=%v\n", res.grants, res.selfVotes, res.stableOps, res.voteReads, res.faulted)
 	if len(res.viol) > 0 {
 		fmt.Printf("REPLAY-VIOLATION property=C06 %s\n", res.viol[0])
 		return
